@@ -32,54 +32,6 @@ RULE += (' ' +
          'filled through its record view; core serverbound packets carrying '
          'a foreign context written through a logged-in Connection; recycled '
          'packet objects (first written / read as the same packet of another '
-         'release, then filled / read again after their context moved on). ')
-RULE += (' ' +
-         'Added in later rounds: the serverbound position-and-look packet '
-         'filled through its record view; core serverbound packets carrying '
-         'a foreign context written through a logged-in Connection; recycled '
-         'packet objects (first written / read as the same packet of another '
-         'release, then filled / read again after their context moved on). '
-         'Round 11: the handshake of each via-connection session (published '
-         'layout, the host name the user gave) also when the name resolves '
-         'to 2-3 address records per family. ')
-RULE += (' ' +
-         'Added in later rounds: the serverbound position-and-look packet '
-         'filled through its record view; core serverbound packets carrying '
-         'a foreign context written through a logged-in Connection; recycled '
-         'packet objects (first written / read as the same packet of another '
-         'release, then filled / read again after their context moved on). '
-         'Round 11: the handshake of each via-connection session (published '
-         'layout, the host name the user gave) also when the name resolves '
-         'to 2-3 address records per family. ')
-RULE += (' ' +
-         'Added in later rounds: the serverbound position-and-look packet '
-         'filled through its record view; core serverbound packets carrying '
-         'a foreign context written through a logged-in Connection; recycled '
-         'packet objects (first written / read as the same packet of another '
-         'release, then filled / read again after their context moved on). '
-         'Round 11: the handshake of each via-connection session (published '
-         'layout, the host name the user gave) also when the name resolves '
-         'to 2-3 address records per family. Round 13: component views - '
-         "Join Game's game_mode / is_hardcore / pure_game_mode under all "
-         'pairs and random sequences of assignments on a decoded packet, '
-         'then re-encoded. ')
-RULE += (' ' +
-         'Added in later rounds: the serverbound position-and-look packet '
-         'filled through its record view; core serverbound packets carrying '
-         'a foreign context written through a logged-in Connection; recycled '
-         'packet objects (first written / read as the same packet of another '
-         'release, then filled / read again after their context moved on). '
-         'Round 11: the handshake of each via-connection session (published '
-         'layout, the host name the user gave) also when the name resolves '
-         'to 2-3 address records per family. Round 13: component views - '
-         "Join Game's game_mode / is_hardcore / pure_game_mode under all "
-         'pairs and random sequences of assignments on a decoded packet, '
-         'then re-encoded. ')
-RULE += (' ' +
-         'Added in later rounds: the serverbound position-and-look packet '
-         'filled through its record view; core serverbound packets carrying '
-         'a foreign context written through a logged-in Connection; recycled '
-         'packet objects (first written / read as the same packet of another '
          'release, then filled / read again after their context moved on). '
          'Round 11: the handshake of each via-connection session (published '
          'layout, the host name the user gave) also when the name resolves '
